@@ -264,7 +264,8 @@ def run_case(case):
         src = _variant(src, var)
         elem = ELEMS[kind][ei]
         if op == 'twoml':
-            elem = ',\n'.join(HASHY[kind])
+            h = HASHY[kind]
+            elem = f'{h[0]}, {h[1]},\n{h[2] if len(h) > 2 else h[0]}'       # deep node, then `#` in a string on the SAME line; then a new line
         if op == 'two':
             a, b = ELEMS[kind][0], ELEMS[kind][1]
             if kind in ('cmp',):
